@@ -305,7 +305,8 @@ pub fn run(a: &Args) {
             push(&mut recs, &mut rng, &mut acs[i], ts, None);
         }
         let meta: Vec<Value> = acs.iter().map(|x| json!({"k": x.k, "icao24": format!("{:06x}", x.addr), "df": x.es_df, "surface": x.surface})).collect();
-        let reference = json!([lat0, lon0]);
+        // one history in four runs on a receiver that is not located (no reference position)
+        let reference = if rng.chance(0.25) { Value::Null } else { json!([lat0, lon0]) };
         writeln!(out, "{}", json!({"reset": 1, "reference": reference, "tag": {"h": h, "run": "all"}, "aircraft": meta})).unwrap();
         for r in &recs {
             writeln!(out, "{}", r).unwrap();
